@@ -156,7 +156,7 @@ def gen_op(rng):
         return ['init', gen_status(rng), gen_pairs(rng), gen_pairs(rng, 2)]
     if k < 96:
         return ['err', gen_status(rng), gen_pairs(rng)]
-    return ['ck', rng.choice(['a', 'sid', 'B']), rng.choice(['v', 'a b', 'caf\xe9', 'x;y', '€', ''])]
+    return ['ck', rng.choice(['a', 'sid', 'B']), rng.choice(['v', 'a b', 'caf\xe9', 'x;y', '\u20ac', ''])]
 
 
 def gen_ops(rng):
@@ -353,7 +353,7 @@ class C14(Check):
                    'a Python str holding lone surrogates is outside the model (Lean Char = Unicode scalar value)']
 
     def budget(self, tier, escalated):
-        n = 2500 if tier == 'quick' else 60000
+        n = 6000 if tier == 'quick' else 60000
         return n * (4 if escalated and tier == 'quick' else 1)
 
     def nontrivial(self, sample):
